@@ -268,6 +268,75 @@ def wl_same_relative_name(ctx, rng, case):
         sc.cleanup()
 
 
+def wl_large_file(ctx, rng, case):
+    """backing files of several pages (24 KB .. 250 KB): the mapping spans many pages, the footer is far from the first page.
+    Per-line snapshots for the first and the last add, call-boundary snapshots for the rest, close, reopen from elsewhere."""
+    import probables as P
+
+    if not linehook.available():
+        raise Inconclusive("sys.monitoring unavailable")
+    est, rate = rng.choice([(20000, 0.01), (50000, 0.05), (200000, 0.01), (8000, 1e-6)])
+    mk = refimpl.bloom_sizing_simple(est, rate)
+    if mk is None:
+        return
+    m, k = mk
+    keys = [f"large-{case.index}-{i}" for i in range(rng.randint(6, 20))]
+    sc = bl.Scratch(ctx, case)
+    cwd0 = os.getcwd()
+    path = os.path.join(sc.dir, "large.blm")
+    case.desc = {"est": est, "rate": rate, "bits": m, "hashes": k, "file_bytes": (m + 7) // 8 + 20}
+    ctx.maximum("largest_backing_file_bytes", (m + 7) // 8 + 20)
+    f = None
+    snap = None
+    try:
+        f = P.BloomFilterOnDisk(path, est, rate)
+        orc = FileOracle(est, rate, m, k)
+        snap = Snapshotter(ctx, path, orc)
+        snap.boundary("after creation")
+        for i, key in enumerate(keys):
+            case.op("add", key)
+            if i in (0, len(keys) - 1):
+                snap.inflight, snap.label = key, f"add #{i + 1}"
+                with linehook.on_every_line(snap):
+                    f.add(key)
+                snap.inflight = None
+            else:
+                f.add(key)
+            orc.complete(key)
+            snap.boundary(f"after add #{i + 1}")
+        snap.label = "close"
+        with linehook.on_every_line(snap):
+            f.close()
+        with open(path, "rb") as fh:
+            ctx.check(fh.read() == orc.expected_file(), "large file: after close the backing file differs from the in-memory export of the same history")
+        os.chdir(sc.other)
+        f = P.BloomFilterOnDisk(os.path.relpath(path, sc.other))
+        os.chdir(cwd0)
+        ctx.check(f.elements_added == orc.completed and all(f.check(kk) for kk in keys), "large file: reopened filter lost keys or the count")
+        f.add("one-more")
+        orc.complete("one-more")
+        snap.boundary("after an add on the reopened large file")
+        tgt = sc.path("export")
+        f.export(tgt)
+        with open(tgt, "rb") as fh:
+            ctx.check(fh.read() == orc.expected_file(), "large file: export(path) is not the current export")
+        f.close()
+        ctx.count("crash_points", snap.points)
+        ctx.count("distinct_file_states_validated", snap.states)
+        ctx.count("large_file_cases")
+        case.nontrivial = True
+    finally:
+        os.chdir(cwd0)
+        if snap is not None:
+            snap.close()
+        if f is not None:
+            try:
+                f.close()
+            except Exception:
+                pass
+        sc.cleanup()
+
+
 # ------------------------------------------------------------------------------- real SIGKILL
 
 def run_child(path, sidelog, hist_file, kill_at, timeout=60):
@@ -377,6 +446,7 @@ PROP = Prop(
     workloads=[
         Workload("same_name", wl_same_relative_name, quick=30, thorough=600),
         Workload("snapshots", wl_snapshots, quick=150, thorough=12000),
+        Workload("large_file", wl_large_file, quick=8, thorough=300),
         Workload("kill", wl_kill, quick=4, thorough=48),
     ],
     assumptions=["process kill (SIGKILL): what was written through the mapping or the file descriptor survives in the page cache; power loss is out of scope",
@@ -384,6 +454,6 @@ PROP = Prop(
                  "the hook is armed during add / export / close; creation, reopen and clear are checked at call boundaries only"],
     finish=finish,
     required=["crash_points", "distinct_file_states_validated", "real_kills_validated", "reopens", "exports_under_snapshots", "closes_under_snapshots",
-              "same_relative_name_cases", "reopen.rel_other_cwd", "reopen.abs_other_cwd"],
+              "same_relative_name_cases", "reopen.rel_other_cwd", "reopen.abs_other_cwd", "large_file_cases"],
     shards={"quick": 4, "thorough": 16},
 )
